@@ -2433,30 +2433,19 @@ theorem env?_none_of_unlisted (s : State) (k : EnvId) (h : ∀ E ∈ s.envs, E.i
   simpa using h E hE
 
 /-- `cleanAfter` for the state a completed teardown (plus the task cleanup, unless tasks are kept) leaves. -/
-theorem clean_of_done (s D : State) (k : EnvId) (keep : Bool) (E : Env)
+theorem clean_core (s D F : State) (k : EnvId) (keep : Bool) (E : Env)
     (hwf : envWf s k E.tasks = true) (hfaith : statusFaithful s E.tasks = true)
     (hD1 : D.roster = s.roster.map (relAll E.tasks)) (hD2 : D.master = s.master)
     (hD4 : ∀ X ∈ D.envs, X ∈ s.envs ∧ X.id ≠ k)
-    (hD6 : D.dead = s.dead ++ (s.envs.filter (fun X => decide (X.id = k))).map (fun X => (X.id, X.started, X.cancelled + X.pending))) :
-    cleanAfter k keep (viewOf (if keep then D else cleanupTasks D E.tasks)) = true := by
+    (hD6 : D.dead = s.dead ++ (s.envs.filter (fun X => decide (X.id = k))).map (fun X => (X.id, X.started, X.cancelled + X.pending)))
+    (hFenvs : F.envs = D.envs) (hFdead : F.dead = D.dead) (hFroster : ∀ t' ∈ F.roster, t' ∈ D.roster)
+    (hFm : keep = false → ∀ m' ∈ F.master, ∃ m ∈ s.master, m'.id = m.id ∧ m'.label = m.label ∧
+          ((m.mesos = .terminal → m'.mesos = .terminal)) ∧
+          (∀ t' ∈ D.roster, t'.id = m.id → t'.isLocked = false → t'.active = true → t'.id ∈ E.tasks → m'.killed = true)) :
+    cleanAfter k keep (viewOf F) = true := by
   simp only [envWf, Bool.and_eq_true, List.all_eq_true, Bool.or_eq_true, decide_eq_true_eq, List.any_eq_true] at hwf
   obtain ⟨⟨⟨⟨⟨hP1, hP2⟩, hP3⟩, _⟩, hP5⟩, hP6⟩ := hwf
   simp only [statusFaithful, List.all_eq_true, Bool.or_eq_true, decide_eq_true_eq] at hfaith
-  -- facts about the final state F
-  have hFenvs : (if keep then D else cleanupTasks D E.tasks).envs = D.envs := by
-    split
-    · rfl
-    · exact cleanupTasks_envs _ _
-  have hFdead : (if keep then D else cleanupTasks D E.tasks).dead = D.dead := by
-    split
-    · rfl
-    · unfold cleanupTasks; split <;> rfl
-  have hFroster : ∀ t' ∈ (if keep then D else cleanupTasks D E.tasks).roster, t' ∈ D.roster := by
-    intro t' ht'
-    split at ht'
-    · exact ht'
-    · unfold cleanupTasks at ht'
-      split at ht' <;> exact (List.mem_filter.mp ht').1
   have hDpar : ∀ t' ∈ D.roster, t'.parent ≠ some k := by
     intro t' ht'
     rw [hD1] at ht'
@@ -2476,42 +2465,8 @@ theorem clean_of_done (s D : State) (k : EnvId) (keep : Bool) (E : Env)
   · by_cases hk : keep = true
     · left; exact hk
     · right
-      simp only [hk, if_false, Bool.false_eq_true]
       intro m' hm'
-      -- the rows of the master after the kill
-      have hmaster : ∃ m ∈ s.master, m'.id = m.id ∧ m'.label = m.label ∧
-          ((m.mesos = .terminal → m'.mesos = .terminal)) ∧
-          (∀ t' ∈ D.roster, t'.id = m.id → t'.isLocked = false → t'.active = true → (E.tasks = [] ∨ t'.id ∈ E.tasks) → m'.killed = true) := by
-        unfold cleanupTasks at hm'
-        split at hm'
-        · rename_i hnil
-          simp only [cleanup, doKill, killMany, List.mem_map, hD2] at hm'
-          obtain ⟨m, hm, rfl⟩ := hm'
-          refine ⟨m, hm, ?_, ?_, ?_, ?_⟩
-          · split <;> rfl
-          · split <;> rfl
-          · intro h; split <;> simp [h]
-          · intro t' ht' hid hl ha _
-            have : m.id ∈ List.map (fun x => x.id) (List.filter (fun x => x.active) (List.filter (fun t => !t.isLocked) D.roster)) :=
-              List.mem_map.mpr ⟨t', List.mem_filter.mpr ⟨List.mem_filter.mpr ⟨ht', by simp [hl]⟩, ha⟩, hid⟩
-            rw [if_pos (by simpa [List.mem_map] using this)]
-        · rename_i hnil
-          simp only [killTasks, doKill, killMany, List.mem_map, hD2] at hm'
-          obtain ⟨m, hm, rfl⟩ := hm'
-          refine ⟨m, hm, ?_, ?_, ?_, ?_⟩
-          · split <;> rfl
-          · split <;> rfl
-          · intro h; split <;> simp [h]
-          · intro t' ht' hid hl ha hin
-            have hin' : t'.id ∈ E.tasks := by
-              rcases hin with h | h
-              · exact absurd h hnil
-              · exact h
-            have : m.id ∈ List.map (fun x => x.id) (List.filter (fun x => x.active)
-                (List.filter (fun t => !t.isLocked && decide (t.id ∈ E.tasks)) D.roster)) :=
-              List.mem_map.mpr ⟨t', List.mem_filter.mpr ⟨List.mem_filter.mpr ⟨ht', by simp [hl, hin']⟩, ha⟩, hid⟩
-            rw [if_pos (by simpa [List.mem_map] using this)]
-      obtain ⟨m, hm, hid, hlab, hterm, hkill⟩ := hmaster
+      obtain ⟨m, hm, hid, hlab, hterm, hkill⟩ := hFm (by simpa using hk) m' hm'
       by_cases hl : m'.label = k
       · -- a task launched for k: it is one of E's tasks and has a roster entry
         have hmk : m.label = k := by rw [← hlab]; exact hl
@@ -2526,7 +2481,7 @@ theorem clean_of_done (s D : State) (k : EnvId) (keep : Bool) (E : Env)
             · rw [hrel]; exact hte'
             · rw [hrel]; simp [Task.isLocked]
             · rw [hrel]; exact ha
-            · right; rw [hrel]; show t.id ∈ E.tasks; rw [hte']; exact hin
+            · rw [hrel]; show t.id ∈ E.tasks; rw [hte']; exact hin
           · left; right
             apply hterm
             rcases hfaith t ht with h | h
@@ -2555,6 +2510,78 @@ theorem clean_of_done (s D : State) (k : EnvId) (keep : Bool) (E : Env)
         rcases hP5 X hXm with h | h
         · exact absurd (by simpa using hXk) h
         · exact h
+
+/-- The master's rows after `killTasks D ids`. -/
+theorem killTasks_master_rows (s D : State) (ids : List TaskId) (hD2 : D.master = s.master) :
+    ∀ m' ∈ (killTasks D ids).master, ∃ m ∈ s.master, m'.id = m.id ∧ m'.label = m.label ∧
+      ((m.mesos = .terminal → m'.mesos = .terminal)) ∧
+      (∀ t' ∈ D.roster, t'.id = m.id → t'.isLocked = false → t'.active = true → t'.id ∈ ids → m'.killed = true) := by
+  intro m' hm'
+  simp only [killTasks, doKill, killMany, List.mem_map, hD2] at hm'
+  obtain ⟨m, hm, rfl⟩ := hm'
+  refine ⟨m, hm, ?_, ?_, ?_, ?_⟩
+  · split <;> rfl
+  · split <;> rfl
+  · intro h; split <;> simp [h]
+  · intro t' ht' hid hl ha hin'
+    have : m.id ∈ List.map (fun x => x.id) (List.filter (fun x => x.active)
+        (List.filter (fun t => !t.isLocked && decide (t.id ∈ ids)) D.roster)) :=
+      List.mem_map.mpr ⟨t', List.mem_filter.mpr ⟨List.mem_filter.mpr ⟨ht', by simp [hl, hin']⟩, ha⟩, hid⟩
+    rw [if_pos (by simpa [List.mem_map] using this)]
+
+theorem cleanup_master_rows (s D : State) (ids : List TaskId) (hD2 : D.master = s.master) :
+    ∀ m' ∈ (cleanup D).master, ∃ m ∈ s.master, m'.id = m.id ∧ m'.label = m.label ∧
+      ((m.mesos = .terminal → m'.mesos = .terminal)) ∧
+      (∀ t' ∈ D.roster, t'.id = m.id → t'.isLocked = false → t'.active = true → t'.id ∈ ids → m'.killed = true) := by
+  intro m' hm'
+  simp only [cleanup, doKill, killMany, List.mem_map, hD2] at hm'
+  obtain ⟨m, hm, rfl⟩ := hm'
+  refine ⟨m, hm, ?_, ?_, ?_, ?_⟩
+  · split <;> rfl
+  · split <;> rfl
+  · intro h; split <;> simp [h]
+  · intro t' ht' hid hl ha _
+    have : m.id ∈ List.map (fun x => x.id) (List.filter (fun x => x.active) (List.filter (fun t => !t.isLocked) D.roster)) :=
+      List.mem_map.mpr ⟨t', List.mem_filter.mpr ⟨List.mem_filter.mpr ⟨ht', by simp [hl]⟩, ha⟩, hid⟩
+    rw [if_pos (by simpa [List.mem_map] using this)]
+
+theorem clean_of_done (s D : State) (k : EnvId) (keep : Bool) (E : Env)
+    (hwf : envWf s k E.tasks = true) (hfaith : statusFaithful s E.tasks = true)
+    (hD1 : D.roster = s.roster.map (relAll E.tasks)) (hD2 : D.master = s.master)
+    (hD4 : ∀ X ∈ D.envs, X ∈ s.envs ∧ X.id ≠ k)
+    (hD6 : D.dead = s.dead ++ (s.envs.filter (fun X => decide (X.id = k))).map (fun X => (X.id, X.started, X.cancelled + X.pending))) :
+    cleanAfter k keep (viewOf (if keep then D else cleanupTasks D E.tasks)) = true := by
+  apply clean_core s D _ k keep E hwf hfaith hD1 hD2 hD4 hD6
+  · split
+    · rfl
+    · exact cleanupTasks_envs _ _
+  · split
+    · rfl
+    · unfold cleanupTasks; split <;> rfl
+  · intro t' ht'
+    split at ht'
+    · exact ht'
+    · unfold cleanupTasks at ht'
+      split at ht' <;> exact (List.mem_filter.mp ht').1
+  · intro hk
+    simp only [hk, Bool.false_eq_true, if_false]
+    unfold cleanupTasks
+    split
+    · exact cleanup_master_rows s D E.tasks hD2
+    · exact killTasks_master_rows s D E.tasks hD2
+
+/-- The same with KillTasks on the environment's tasks as the last step (the failure tail of a creation). -/
+theorem clean_of_done_kill (s D : State) (k : EnvId) (E : Env)
+    (hwf : envWf s k E.tasks = true) (hfaith : statusFaithful s E.tasks = true)
+    (hD1 : D.roster = s.roster.map (relAll E.tasks)) (hD2 : D.master = s.master)
+    (hD4 : ∀ X ∈ D.envs, X ∈ s.envs ∧ X.id ≠ k)
+    (hD6 : D.dead = s.dead ++ (s.envs.filter (fun X => decide (X.id = k))).map (fun X => (X.id, X.started, X.cancelled + X.pending))) :
+    cleanAfter k false (viewOf (killTasks D E.tasks)) = true := by
+  apply clean_core s D _ k false E hwf hfaith hD1 hD2 hD4 hD6
+  · rfl
+  · rfl
+  · intro t' ht'; exact (List.mem_filter.mp ht').1
+  · intro _; exact killTasks_master_rows s D E.tasks hD2
 
 end Own
 
@@ -2679,5 +2706,78 @@ theorem destroy_clean (s : State) (k : EnvId) (force allow keep : Bool) (o : DOr
     · cases keep
       · exact h1
       · exact cleanAfter_keep_of_kill k _ h1
+
+/-- A forced teardown of a listed, not torn, not DONE environment never answers "error" or
+    "not found" when the bookkeeping is well-formed: it completes or hangs. -/
+theorem teardown_forced_res (s : State) (k : EnvId) (late : Bool) (hf : List TaskId) (E : Env)
+    (hE : s.env? k = some E) (hte : E.tearing = false) (hnd : E.state ≠ .DONE)
+    (hwf : envWf s k E.tasks = true) (hhk : ∀ h ∈ E.hooks, h.task ∈ E.tasks) :
+    (teardown s k true late hf).2.1 = .ok ∨ (teardown s k true late hf).2.1 = .doneErr ∨
+    (teardown s k true late hf).2.1 = .hang := by
+  have hpar := wf_parent s k E.tasks hwf
+  have herr1 : (releaseTasks s k (tdPlain E)).2 = 0 :=
+    releaseTasks_errs_zero s k _ (fun t ht hx => Or.inl (hpar t ht (tdPlain_sub E _ hx)))
+  unfold teardown
+  rw [hE]
+  simp only [hte, hnd, Bool.false_eq_true, if_false, Bool.not_true, Bool.and_false]
+  rw [herr1]
+  simp only [Nat.lt_irrefl, if_false]
+  unfold tdFinish
+  simp only []
+  split
+  · right; right; rfl
+  have hr2 : (tdCancel (releaseTasks s k (tdPlain E)).1 k E).roster = s.roster.map (relMap k (tdPlain E)) := rfl
+  have herr2 : (releaseTasks (tdCancel (releaseTasks s k (tdPlain E)).1 k E) k (tdMsg (releaseTasks s k (tdPlain E)).1 E)).2 = 0 := by
+    apply releaseTasks_errs_zero
+    intro t' ht' hx
+    rw [hr2] at ht'
+    obtain ⟨t, ht, rfl⟩ := List.mem_map.mp ht'
+    obtain ⟨x, _, z⟩ := relMap_props k (tdPlain E) t
+    rw [x] at hx
+    have := hpar t ht (tdMsg_sub _ E hhk _ hx)
+    rcases z with z | z
+    · left; rw [z]; exact this
+    · right; exact z.1
+  rw [herr2]
+  simp only [Nat.lt_irrefl, if_false]
+  split
+  · right; left; rfl
+  · left; rfl
+
+/-- The failure tail of CreateEnvironment (GO_ERROR, forced teardown, KillTasks) leaves the
+    environment clean unless it hangs, under the hypotheses of the clean-destroy theorem. -/
+theorem createFail_clean (s : State) (k : EnvId) (late : Bool) (res : Res) (hf : List TaskId) (E : Env)
+    (hE : s.env? k = some E) (hte : E.tearing = false) (hwf : envWf s k E.tasks = true)
+    (hhk : ∀ h ∈ E.hooks, h.task ∈ E.tasks)
+    (hrel : hooksReleasable s E.hooks = true) (hfaith : statusFaithful s E.tasks = true)
+    (hnh : (createFail s k E.tasks late res hf).2 ≠ .hang) :
+    cleanAfter k false (viewOf (createFail s k E.tasks late res hf).1) = true := by
+  have hso := sameOwn_setEnv_state s k .ERROR
+  obtain ⟨t1, t2, t3⟩ := hyps_transfer hso k E.tasks E.hooks
+  -- the environment as listed after GO_ERROR
+  have hE1 : (setEnv s k (fun X => { X with state := .ERROR })).env? k = some { E with state := .ERROR } := by
+    have hk : E.id = k := (env?_some hE).2
+    unfold State.env? setEnv at *
+    simp only [List.find?_map]
+    have : ((fun E => decide (E.id = k)) ∘ fun E : Env => if E.id = k then { E with state := EState.ERROR } else E) =
+        (fun E : Env => decide (E.id = k)) := by
+      funext X; by_cases hX : X.id = k <;> simp [hX]
+    rw [this, hE]
+    simp [hk]
+  have hwf1 : envWf (setEnv s k (fun X => { X with state := .ERROR })) k E.tasks = true := by rw [t1]; exact hwf
+  have hfa1 : statusFaithful (setEnv s k (fun X => { X with state := .ERROR })) E.tasks = true := by rw [t2]; exact hfaith
+  have hrel1 : hooksReleasable (setEnv s k (fun X => { X with state := .ERROR })) E.hooks = true := by rw [t3]; exact hrel
+  have hres := teardown_forced_res _ k late hf { E with state := .ERROR } hE1 hte (by simp) hwf1 hhk
+  revert hnh
+  unfold createFail
+  simp only []
+  rcases hres with h | h | h
+  · rw [h]; intro _
+    obtain ⟨a1, a2, _, a4, _, a6⟩ := teardown_done_state _ k true late hf { E with state := .ERROR } hE1 hwf1 hrel1 hhk (Or.inl h)
+    exact clean_of_done_kill _ _ k { E with state := .ERROR } hwf1 hfa1 a1 a2 a4 a6
+  · rw [h]; intro _
+    obtain ⟨a1, a2, _, a4, _, a6⟩ := teardown_done_state _ k true late hf { E with state := .ERROR } hE1 hwf1 hrel1 hhk (Or.inr h)
+    exact clean_of_done_kill _ _ k { E with state := .ERROR } hwf1 hfa1 a1 a2 a4 a6
+  · rw [h]; intro hc; exact absurd rfl hc
 
 end Own
